@@ -513,7 +513,7 @@ func (a *SequenceTracker[RelationType, StateType, ValueType]) AcquireLock(ctx *s
 		// This shouldn't be possible, it's a serious programming error if it happens
 		panic("Attempted to acquire AutoInc lock for entire insert operation, but lock mode was set to Interleaved")
 	}
-	return a.mm.Lock(relationName), nil
+	return a.mm.Lock(relationName.ToLower()), nil
 }
 
 // currentInit returns the current |init| channel under |initMu|, so that it never races
